@@ -88,14 +88,32 @@ def fromlist_rules(model, R):
         R.unknown('ORDER', f, f.node, '_fromlist: member list', 'not found')
         return
     # --- unordered path
-    idxmap = [s for s in un if isinstance(s, ast.Assign) and isinstance(s.value, ast.Call) and name_is(s.value.func, 'dict')
-              and s.value.args and isinstance(s.value.args[0], ast.Call) and name_is(s.value.args[0].func, 'enumerate')
-              and name_is(s.value.args[0].args[0], cons)]
+    def is_index_map(v):
+        # dict(enumerate(concepts))  /  {i: c for i, c in enumerate(concepts)}  /  list(concepts) / concepts[:] (positions as indexes)
+        if isinstance(v, ast.Call) and name_is(v.func, 'dict') and v.args and isinstance(v.args[0], ast.Call) and name_is(v.args[0].func, 'enumerate'):
+            return name_is(v.args[0].args[0], cons)
+        if isinstance(v, ast.DictComp) and len(v.generators) == 1 and not v.generators[0].ifs:
+            g = v.generators[0]
+            return (isinstance(g.iter, ast.Call) and name_is(g.iter.func, 'enumerate') and name_is(g.iter.args[0], cons)
+                    and isinstance(g.target, ast.Tuple) and [src(v.key), src(v.value)] == [src(t) for t in g.target.elts])
+        if isinstance(v, ast.Call) and isinstance(v.func, ast.Name) and v.func.id in ('list', 'tuple') and v.args and name_is(v.args[0], cons):
+            return True
+        return isinstance(v, ast.Subscript) and isinstance(v.slice, ast.Slice) and name_is(v.value, cons)
+    idxmap = [s for s in un if isinstance(s, ast.Assign) and isinstance(s.targets[0], ast.Name) and is_index_map(s.value)]
     sorts = [s for s in un if isinstance(s, ast.Expr) and isinstance(s.value, ast.Call) and chain(s.value.func) == [cons, 'sort']]
     loops = [s for s in un if isinstance(s, ast.For)]
-    ok = len(idxmap) == 1 and len(sorts) == 1 and idxmap[0].lineno < sorts[0].lineno
-    R.check(ok, 'ORDER', f, sorts[0] if sorts else br, '_fromlist(raw): stored positions are captured before the members are sorted',
-            f'index_map = dict(enumerate({cons})); {cons}.sort(key=shortlex)', src(un)[:120])
+    if len(idxmap) == 1 and len(sorts) == 1:
+        R.decided(idxmap[0].lineno < sorts[0].lineno, 'ORDER', f, sorts[0], '_fromlist(raw): stored positions are captured before the members are sorted',
+                  f'index_map = dict(enumerate({cons})) before {cons}.sort(key=shortlex)', f'map at line {idxmap[0].lineno}, sort at line {sorts[0].lineno}')
+    elif len(sorts) == 1 and not idxmap:
+        uses_cons = any(isinstance(n, ast.Subscript) and name_is(n.value, cons) for s_ in un for n in ast.walk(s_))
+        if uses_cons:
+            R.bad('ORDER', f, sorts[0], '_fromlist(raw): stored positions are captured before the members are sorted',
+                  f'index_map = dict(enumerate({cons})) before {cons}.sort(key=shortlex)', 'stored indexes are resolved against the already re-sorted list')
+        else:
+            R.unknown('ORDER', f, sorts[0], '_fromlist(raw): position map', src(un)[:120])
+    else:
+        R.unknown('ORDER', f, br, '_fromlist(raw): position map and sort', src(un)[:120])
     if sorts:
         kws = {k.arg: k.value for k in sorts[0].value.keywords}
         benv = Env(un)
@@ -137,8 +155,11 @@ def fromlist_rules(model, R):
             ok = (isinstance(gen, (ast.GeneratorExp, ast.ListComp)) and len(gen.generators) == 1 and not gen.generators[0].ifs
                   and chain(gen.generators[0].iter) == [cv, attr] and isinstance(gen.elt, ast.Subscript)
                   and name_is(gen.elt.value, src_map) and name_is(gen.elt.slice, src(gen.generators[0].target)))
-            R.check(ok, 'ORDER', f, a[0], f'_fromlist({path}): {attr} resolved through the stored positions, all of them',
-                    f'({src_map}[i] for i in {cv}.{attr})', src(gen)[:100])
+            if raw and not idxmap:
+                R.unknown('ORDER', f, a[0], f'_fromlist({path}): {attr} resolved through the stored positions', src(gen)[:100])
+            else:
+                R.check(ok, 'ORDER', f, a[0], f'_fromlist({path}): {attr} resolved through the stored positions, all of them',
+                        f'({src_map}[i] for i in {cv}.{attr})', src(gen)[:100])
             if raw:
                 if sortcall is None:
                     R.bad('ORDER', f, a[0], f'_fromlist(raw): {attr} re-sorted', f'sorted(..., key={keyname})', 'not sorted')
